@@ -601,3 +601,103 @@ func init() {
 		return mkStr(e.fmtInt(a[0].(*Term), false, b.V, false, 0))
 	}
 }
+
+// ---- strings.Builder (real SSA except the two unsafe spots) ----
+func init() {
+	intrinsics["(*strings.Builder).copyCheck"] = func(e *Exec, a []Value) Value { return nil }
+	intrinsics["(*strings.Builder).String"] = func(e *Exec, a []Value) Value {
+		p := a[0].(Ptr)
+		if p.slot == nil {
+			e.gopanic("nil pointer dereference (strings.Builder)")
+		}
+		st := (*p.slot).(Struct)
+		buf := st[1].(Slice)
+		b := make([]*Term, len(buf.v))
+		for i := range b {
+			b[i] = buf.v[i].(*Term)
+		}
+		return mkStr(b)
+	}
+}
+
+// ---- strconv.ParseFloat / FormatFloat ----
+func init() {
+	intrinsics["strconv.FormatFloat"] = func(e *Exec, a []Value) Value {
+		f, fm, prec, bits := a[0].(*Term), a[1].(*Term), a[2].(*Term), a[3].(*Term)
+		if f.IsConst() && fm.IsConst() && prec.IsConst() && bits.IsConst() {
+			return Str{s: strconv.FormatFloat(f.Float(), byte(fm.V), int(sx(64, prec.V)), int(bits.V))}
+		}
+		e.cut("unsupported-symbolic:strconv.FormatFloat")
+		return nil
+	}
+	intrinsics["strconv.ParseFloat"] = func(e *Exec, a []Value) Value {
+		s := a[0].(Str)
+		bits := a[1].(*Term)
+		if s.Concrete() && bits.IsConst() {
+			f, err := strconv.ParseFloat(s.s, int(bits.V))
+			if err != nil {
+				return Tuple{FConst(f), e.mkError(err.Error())}
+			}
+			return Tuple{FConst(f), Iface{}}
+		}
+		e.modelsUsed["strconv.ParseFloat (model: decimal integer syntax decided exactly; '.', exponent, inf/nan/hex spellings with symbolic bytes cut the path)"]++
+		bad := Tuple{FConst(0), e.mkError("strconv.ParseFloat: parsing: invalid syntax")}
+		n := s.Len()
+		if n == 0 {
+			return bad
+		}
+		i := 0
+		neg := false
+		c8 := func(c byte) *Term { return Const(8, uint64(c)) }
+		if e.decide(Eq(s.At(0), c8('-'))) {
+			neg, i = true, 1
+		} else if e.decide(Eq(s.At(0), c8('+'))) {
+			i = 1
+		}
+		if i == n {
+			return bad
+		}
+		val := Const(64, 0)
+		digits := 0
+		for ; i < n; i++ {
+			b := s.At(i)
+			isDigit := And(Bin(OUle, c8('0'), b), Bin(OUle, b, c8('9')))
+			if e.decide(isDigit) {
+				digits++
+				if digits > 15 {
+					e.cut("unsupported-symbolic:ParseFloat with more than 15 symbolic digits")
+				}
+				val = Bin(OAdd, Bin(OMul, val, Const(64, 10)), Zext(Bin(OSub, b, c8('0')), 64))
+				continue
+			}
+			// characters that could continue a float literal: . e E _ and the letters of inf/infinity/nan, hex floats
+			special := tFalse
+			for _, c := range []byte(".eE_iInNfFaAtTyYxXpP") {
+				special = Or(special, Eq(b, c8(c)))
+			}
+			if e.decide(special) {
+				e.cut("unsupported-symbolic:ParseFloat non-integer float syntax")
+			}
+			return bad
+		}
+		f := Int2F(val, false)
+		if neg {
+			f = FUn(OFNeg, f)
+		}
+		return Tuple{f, Iface{}}
+	}
+}
+
+func init() {
+	intrinsics["internal/bytealg.MakeNoZero"] = func(e *Exec, a []Value) Value {
+		n := int(int64(e.concretize(a[0].(*Term), 64)))
+		if n < 0 || n > 1<<24 {
+			e.gopanic("makeslice: len out of range")
+		}
+		v := make([]Value, n)
+		for i := range v {
+			v[i] = Const(8, 0)
+		}
+		return Slice{o: e.newObj("makenozero"), v: v, ok: true}
+	}
+}
